@@ -1,7 +1,11 @@
 CHECK = {
-    "suites": [suite("allocate", "c03", 6000, 600000, stdin=True)],
+    "suites": [suite("allocate", "c03", 6000, 600000, stdin=True),
+               suite("raw", "c03", 2500, 120000, stdin=True, args=["-suite", "raw"]),
+               suite("block", "c03", 2000, 80000, stdin=True, args=["-suite", "block"])],
     "gen": [{"pkg": "extract_c03", "out": "lean/ClusterVerif/Gen/C03.lean"}],
-    "lean_sources": ["ClusterVerif/Model/C03Skeleton.lean", "ClusterVerif/Gen/C03.lean", "ClusterVerif/Model/C03.lean", "ClusterVerif/Spec/C03.lean", "ClusterVerif/Lemmas/C03.lean", "ClusterVerif/Lemmas/C03Sort.lean"],
+    "lean_sources": ["ClusterVerif/Model/C03Skeleton.lean", "ClusterVerif/Gen/C03.lean", "ClusterVerif/Model/C03.lean", "ClusterVerif/Spec/C03.lean", "ClusterVerif/Lemmas/C03.lean", "ClusterVerif/Lemmas/C03Sort.lean",
+                     "ClusterVerif/Model/C03Pipeline.lean", "ClusterVerif/Lemmas/C03Pipeline.lean", "ClusterVerif/Model/C03Block.lean",
+                     "ClusterVerif/Lemmas/C03Block.lean", "ClusterVerif/Spec/C03Block.lean", "ClusterVerif/Model/C04.lean", "ClusterVerif/Model/Pin.lean"],
     "rule": "cases = (strategy, factor pair, 0-8 peers each in one of 5 metric states, current/exclusion/priority lists) "
             "drawn from one splitmix64 stream per case index; non-trivial = positive factors or everywhere (-1,-1); distinct by case line",
     "trusted_base": ["metrics.Store-backed monitor stands in for pubsubmon (LatestValid is the real code)",
